@@ -301,6 +301,13 @@ pub fn run(ctx: &RunCtx) -> i32 {
         // has finished or 30 ms after it)
         jobs.push((cfg, 3, 30, true, 8, TimeDetail::Coarse));
     }
+    // a one-slot table and a late controller: the second request is attempted after the first one's final deadline without a
+    // timer call in between (it is refused, or - if the client finishes overdue requests first - the failure is reported);
+    // the first request still fails at the first timer call at or after its deadline
+    for (t, st) in [(Transport::Unreliable { rto_ms: 100, gran_ms: 1, rm: 2, rc: 2 }, 400u64), (Transport::Reliable { timeout_ms: 100 }, 150)] {
+        let cfg = Cfg { transport: t, mech: Mech::None, fingerprint: false, max_tx: 1, cred: 0, method: 1 };
+        jobs.push((cfg, 2, st, false, 7, TimeDetail::Coarse));
+    }
     // two, three and four requests sharing the timer, started `stagger` ms apart
     let staggers: Vec<u64> = if thorough { vec![1, 30, 137] } else { vec![30, 137] };
     let multi: Vec<(u64, u32, u32)> = if thorough {
@@ -392,7 +399,7 @@ pub fn run(ctx: &RunCtx) -> i32 {
         rep,
         Finish {
             level: "model_checking",
-            rule: format!("breadth-first exploration of the real client over timer calls at every region representative (each schedule point S_k and the deadline D: -1 ms, exact, +1 ms, midpoints, beyond all deadlines, and 'now') for {} jobs: RTO {{1,37,100,500,70000 (thorough +3000)}} ms x Rc {:?} x Rm {{1,2,3,16,17,32 (thorough +7,15)}} x granularity {{1,10,2000}} ms with one request run to completion; reliable 100 ms / 39.5 s (two requests; three requests with answers in between: every request on reliable transport must run on the configured timeout - no slots, failure at t0 + timeout - whatever was answered before); 2, 3 and 4 requests started 30 / 137 (thorough also 1) ms apart sharing the timer; learned-RTO scenarios (first transaction answered after 7 ms, next request runs on the learned interval) and four-request histories alternating answered requests with pauses of 40 ms / 1 s / 601 s; the interval of every new request is compared with an independent double-precision RFC 6298 estimate fed by the observed history (samples of requests completed without retransmission, reset after more than 600 s without a request); the default configuration driven by the announced durations must give 0/500/1500/3500/7500/15500/31500 and failure at 39500 ms; deviation-bounded runs (<= {} deviations) on the defaults and on Rc 10 / Rm 32. Monitor in integer nanoseconds: first copy in send_request, further copies only in timer calls, one per call, byte-identical, each consuming a schedule point in (last transmission, now], never at or after D, at most Rc; a timer call with an open slot before D does retransmit; failure exactly in the first timer call at or after D", jobs.len(), rcs, if thorough { 4 } else { 3 }),
+            rule: format!("breadth-first exploration of the real client over timer calls at every region representative (each schedule point S_k and the deadline D: -1 ms, exact, +1 ms, midpoints, beyond all deadlines, and 'now') for {} jobs: RTO {{1,37,100,500,70000 (thorough +3000)}} ms x Rc {:?} x Rm {{1,2,3,16,17,32 (thorough +7,15)}} x granularity {{1,10,2000}} ms with one request run to completion; reliable 100 ms / 39.5 s (two requests; three requests with answers in between: every request on reliable transport must run on the configured timeout - no slots, failure at t0 + timeout - whatever was answered before); a one-slot table with the second request attempted after the first one's final deadline and before any timer call; 2, 3 and 4 requests started 30 / 137 (thorough also 1) ms apart sharing the timer; learned-RTO scenarios (first transaction answered after 7 ms, next request runs on the learned interval) and four-request histories alternating answered requests with pauses of 40 ms / 1 s / 601 s; the interval of every new request is compared with an independent double-precision RFC 6298 estimate fed by the observed history (samples of requests completed without retransmission, reset after more than 600 s without a request); the default configuration driven by the announced durations must give 0/500/1500/3500/7500/15500/31500 and failure at 39500 ms; deviation-bounded runs (<= {} deviations) on the defaults and on Rc 10 / Rm 32. Monitor in integer nanoseconds: first copy in send_request, further copies only in timer calls, one per call, byte-identical, each consuming a schedule point in (last transmission, now], never at or after D, at most Rc; a timer call with an open slot before D does retransmit; failure exactly in the first timer call at or after D", jobs.len(), rcs, if thorough { 4 } else { 3 }),
             assumptions: vec!["RTO_i is the interval recorded for the transaction at send time (H1); whether it is the right estimate is C15's question".into(), "region representatives instead of all instants".into()],
             required_symbols: vec!["bfs-configs", "retransmitted-in-slot", "late-call-skipped-slots", "failed-at-deadline", "early-call-no-retransmission", "learned-rto-scenarios", "history-before-the-request", "initial-interval-matches-independent-estimate", "deviation-runs", "default-schedule-0-500-1500-3500-7500-15500-31500-fail-39500"],
             min_outcomes: 5,
